@@ -1,6 +1,7 @@
 package simharness
 
 import (
+	"time"
 	"strings"
 	"context"
 	"errors"
@@ -30,11 +31,14 @@ type ReaderPlan struct {
 	Seekable  bool   `json:"seekable"`   // the reader also has Seek, and the caller has already consumed a part of it: the document starts at the current offset (fault-free plans only)
 	Stall     bool   `json:"stall"`      // after StallAt bytes Read never returns (a pipe whose writer went silent)
 	StallAt   int    `json:"stall_at"`
+	Slow      bool   `json:"slow"`       // Read call number SlowAt takes 30 s of simulated time before it returns (simulated runs only)
+	SlowAt    int    `json:"slow_at"`
 }
 
 var noReaderFault = ReaderPlan{FailAt: -1}
 
 type simReader struct {
+	SlowFired bool
 	plan  ReaderPlan
 	data  []byte
 	pos   int
@@ -211,6 +215,12 @@ func (r *simReader) Read(p []byte) (int, error) {
 		simrt.Yield("stub:reader")
 	}
 	r.n++
+	if r.yield && r.plan.Slow && r.n == r.plan.SlowAt+1 {
+		// a slow source (pipe, network): the fake clock of the bubble moves on when every
+		// other goroutine is blocked
+		r.SlowFired = true
+		time.Sleep(30 * time.Second)
+	}
 	if len(p) == 0 {
 		return 0, nil
 	}
